@@ -125,6 +125,7 @@ class Env:
         self.lib_cache = {}
         _expr.set_cache(self.lib_cache)
         self.leaves = leaves
+        self.extra_tags = sorted({c for l in leaves for c in l[1]}, key=name_of)
         self.counting = counting
         S = (sql_engine_cls or sql.Engine)(name="S")
         A = (iter_engine_cls or iteration.Engine)(name="A")
@@ -224,6 +225,12 @@ class Env:
         if variant == "where":
             where.append(from_clause.c["keep_"] == 1)
         available = {c: from_clause.c[phys[c]] for c in cols}
+        if variant == "extra":
+            # the FROM clause offers more logical columns than the leaf relation declares (legal: columns_available
+            # describes the FROM clause, the relation's columns are a subset); the extra ones hold a sentinel value
+            for t in self.extra_tags:
+                if t not in available:
+                    available[t] = from_clause.c["zz_"]
         return sql.Payload(from_clause, where=where, columns_available=available)
 
     def leaf_index(self, leafrel):
